@@ -18,6 +18,7 @@ fn main() {
         "c06" => checks::c06::main(&a),
         "c07" => checks::c07::main(&a),
         "c08" => checks::c08::main(&a),
+        "c09" => checks::c09::main(&a),
         "c10" => checks::c10::main(&a),
         "c11" => checks::c11::main(&a),
         "c12" => checks::c12::main(&a),
